@@ -15,10 +15,12 @@
 (*      along a path (any path: Contract picks any pair), each step being     *)
 (*      transpose - reshape - broadcast multiply - reduce_sum on row-major    *)
 (*      flat data, final reshape.                                             *)
-(* TLC checks (2) = (1) on the bounded domain whenever ordered_indices gives  *)
-(* pairwise different order values (ImplEqualsRef).  With equal order values  *)
-(* (Tied) the design is NOT correct: ImplEqualsRefAlways has counterexamples  *)
-(* (design-level finding, reproduced on the real code by the harness).        *)
+(* TLC checks (2) = (1) on the bounded domain whenever the order values are    *)
+(* pairwise different (ImplEqualsRef).  With StrictOrder = TRUE (the code     *)
+(* since /repo 5d2e6c4: ties broken by the index name) that is always the     *)
+(* case.  With StrictOrder = FALSE (legacy code) equal order values occur and *)
+(* the design is NOT correct: ImplEqualsRefAlways has counterexamples (design *)
+(* level finding, was reproduced on the real code; now a regression probe).   *)
 (* All programs, operand contents and expected outputs are written as JSON.   *)
 EXTENDS Integers, Sequences, FiniteSets, TLC, Json, IOUtils, FiniteSetsExt, SequencesExt, Functions
 
@@ -245,7 +247,7 @@ AssignOrd(bo, ixs, rest) ==
          IN AssignOrd(bo @@ (s :> v), ixs, Tail(rest))
 
 \* perm = iteration order of the Python set `combined_index` (hash dependent)
-OrderOf(p, perm) ==
+OrderOfS(p, perm, strict) ==
     LET f2 == Final2(p)
         ixs == Ix2(p)
         bo0 == [s \in {f2[j] : j \in 1..Len(f2)} |-> (IndexOf(f2, s) - 1) * SC]
@@ -253,9 +255,10 @@ OrderOf(p, perm) ==
         bo == AssignOrd(bo0, ixs, perm)
         syms == DOMAIN bo \ {SMIN, SMAX}
         val(s) == bo[s]
-        \* repaired variant (StrictOrder): ties broken by the symbol itself
-        rank == [s \in syms |-> Cardinality({t \in syms : val(t) < val(s) \/ (StrictOrder /\ val(t) = val(s) /\ t < s)})]
-        tied == ~StrictOrder /\ \E s, t \in syms : s # t /\ val(s) = val(t)
+        \* repaired variant (strict; /repo 5d2e6c4): einsum() re-ranks base_order by
+        \* (value, symbol), so every later sort agrees; legacy: equal values stay equal
+        rank == [s \in syms |-> Cardinality({t \in syms : val(t) < val(s) \/ (strict /\ val(t) = val(s) /\ t < s)})]
+        tied == ~strict /\ \E s, t \in syms : s # t /\ val(s) = val(t)
         \* sorted(set, key=order): stable w.r.t. the set iteration order; the
         \* iteration order is modelled as perm followed by the other symbols
         pri(s) == IF InSeq(perm, s) THEN IndexOf(perm, s) ELSE 50 + (s % 100) + (IF s >= 100 THEN 20 ELSE 0)
@@ -268,6 +271,8 @@ Rot(s, r) == [j \in 1..Len(s) |-> s[((j + r - 1) % Len(s)) + 1]]
 \* all iteration orders for up to MaxPermK contracted indices, otherwise the
 \* rotations of the sorted and of the reversed sequence
 MaxPermK == IF Tier = "thorough" THEN 5 ELSE 4
+OrderOf(p, perm) == OrderOfS(p, perm, StrictOrder)
+
 Perms(p) ==
     LET cs == Contr2(p)
         k == Cardinality(cs)
@@ -412,6 +417,15 @@ OrderReps(p) ==
             tot |-> [j \in 1..Len(o.tot) |-> IF o.tot[j] = BATCH THEN "." ELSE SymStr(o.tot[j])]]
         : o \in os}
 
+\* iteration orders under which the LEGACY ordering (equal order values kept) ties:
+\* one representative per distinct legacy result; replayed on the code so that a
+\* reappearance of the old behaviour is noticed whatever StrictOrder says
+LegacyTiedReps(p) ==
+    LET pairs == {<<q, OrderOfS(p, q, FALSE)>> : q \in Perms(p)}
+        os == {pr[2] : pr \in {x \in pairs : x[2].tied}}
+    IN {LET pr == CHOOSE x \in pairs : x[2] = o
+        IN [j \in 1..Len(pr[1]) |-> SymStr(pr[1][j])] : o \in os}
+
 Row(p) ==
     [expr |-> ExprOf(p),
      shapes |-> [k \in 1..NOps(p) |-> OpShape(p, k)],
@@ -419,7 +433,8 @@ Row(p) ==
      out_shape |-> OutShape(p),
      expected |-> RefFlat(p),
      declines |-> RankMismatch(p),
-     orders |-> IF RankMismatch(p) THEN {} ELSE OrderReps(p)]
+     orders |-> IF RankMismatch(p) THEN {} ELSE OrderReps(p),
+     legacy_tied |-> IF RankMismatch(p) THEN {} ELSE LegacyTiedReps(p)]
 
 Post ==
     /\ TLCGet("stats").diameter >= 0
@@ -432,6 +447,6 @@ Stutter == UNCHANGED vars
 NeverDoneUntied == ~(pc = "done" /\ ~ord.tied)
 
 \* design-finding mode: only the programs whose ordering can tie
-InitTied == /\ prog \in {p \in Programs : ~RankMismatch(p) /\ \E q \in Perms(p) : OrderOf(p, q).tied}
+InitTied == /\ prog \in {p \in Programs : ~RankMismatch(p) /\ \E q \in Perms(p) : OrderOfS(p, q, FALSE).tied}
             /\ pc = "start" /\ ord = <<>> /\ cur = {}
 ==========================================================================
